@@ -65,21 +65,24 @@ type h8State struct {
 }
 
 var h8Inputs = map[string][]string{
-	"valid":   {"SELECT a, b FROM t WHERE a = 1", "INSERT INTO t (a) VALUES (1)", "SELECT a -- c1\nFROM t /* c2 */ WHERE b = 2", "WITH c AS (SELECT 1) SELECT * FROM c"},
+	"valid":   {"SELECT a, b FROM t WHERE a = 1", "INSERT INTO t (a) VALUES (1)", "SELECT a -- c1\nFROM t /* c2 */ WHERE b = 2", "WITH c AS (SELECT 1) SELECT * FROM c", "SELECT\t1,\t2\t/* tabs */\tFROM\tt", "\t\t\tSELECT a\n\t\t\tFROM t"},
 	"invalid": {"SELECT - FROM t", "INSERT INTO t VALUES (1, -)", "SELECT -(a + ) FROM t", "SELECT +(1", "SELECT a,\n  b\nFROM t\nWHERE ]", "SELECT FROM", "INSERT INTO t VALUES (", "SELECT a FROM t WHERE a = 'unterminated", "SELECT 'bad \\q escape'", "SELECT a FROM t;;\n\nSELECT ] x"},
 	"deep": {"SELECT " + strings.Repeat("(", 150) + "1" + strings.Repeat(")", 150), "SELECT " + strings.Repeat("f(", 120) + "1" + strings.Repeat(")", 120),
 		"SELECT " + strings.Repeat("- ", 150) + "1", "SELECT " + strings.Repeat("+ ", 130) + "a FROM t", "SELECT " + strings.Repeat("NOT ", 140) + "a", "SELECT " + strings.Repeat("CASE WHEN a THEN ", 110) + "1" + strings.Repeat(" END", 110),
-		"SELECT " + strings.Repeat("- ", 60) + " FROM t", "SELECT a FROM t WHERE " + strings.Repeat("(", 60) + "- "},
+		"SELECT " + strings.Repeat("- ", 60) + " FROM t", "SELECT a FROM t WHERE " + strings.Repeat("(", 60) + "- ",
+		// nesting stopped by the guards outside the expression parser (derived tables, scalar sub-queries, CTE bodies)
+		strings.Repeat("SELECT * FROM (", 120) + "SELECT 1" + strings.Repeat(") x", 120), "SELECT " + strings.Repeat("(SELECT ", 70) + "1" + strings.Repeat(")", 70),
+		strings.Repeat("WITH c AS (", 110) + "SELECT 1" + strings.Repeat(") SELECT * FROM c", 110)},
 	"multi": {"SELECT 1;\nSELECT 2;\nSELECT a FROM", ";; SELECT 1", "SELECT a FROM t LIMIT 10, 20"},
 }
 
-var h8Kinds = []string{"tokenize", "parse", "parse-ctx", "parse-pos", "parse-recovery", "parse-cancelled", "opt-strict", "opt-mysql", "tok-mysql", "reset-p", "reset-t", "release-p", "pool-p", "pool-t"}
+var h8Kinds = []string{"tokenize", "parse", "parse-ctx", "parse-pos", "parse-recovery", "parse-cancelled", "opt-strict", "opt-mysql", "tok-mysql", "reset-p", "reset-t", "release-p", "pool-p", "pool-t", "tokenize-ctx", "multi-recovery-release", "multi-recovery-release-twice"}
 
 func h8RandomOp(r *rand.Rand) h8Op {
 	k := h8Kinds[r.Intn(len(h8Kinds))]
 	op := h8Op{Kind: k}
 	switch k {
-	case "tokenize", "parse", "parse-ctx", "parse-pos", "parse-recovery", "parse-cancelled":
+	case "tokenize", "parse", "parse-ctx", "parse-pos", "parse-recovery", "parse-cancelled", "tokenize-ctx", "multi-recovery-release", "multi-recovery-release-twice":
 		classes := []string{"valid", "invalid", "invalid", "deep", "multi"}
 		c := classes[r.Intn(len(classes))]
 		op.Arg = h8Inputs[c][r.Intn(len(h8Inputs[c]))]
@@ -99,6 +102,15 @@ func (s *h8State) apply(op h8Op) {
 	switch op.Kind {
 	case "tokenize":
 		tokenize()
+	case "tokenize-ctx":
+		_, _ = s.tk.TokenizeContext(context.Background(), []byte(op.Arg))
+	case "multi-recovery-release", "multi-recovery-release-twice":
+		// the pooled recovery entry point; its result is documented as safe to release more than once
+		res := parser.ParseMultiWithRecovery(h8PlainTokens())
+		res.Release()
+		if op.Kind == "multi-recovery-release-twice" {
+			res.Release()
+		}
 	case "parse":
 		if t := tokenize(); t != nil {
 			_, _ = s.p.ParseFromModelTokens(t)
@@ -167,6 +179,12 @@ var h8Probes = []h8Probe{
 	// calls the tokenizer refuses before scanning: nothing of an earlier call may remain visible on the instance
 	{"refused-cancelled", "SELECT 1", "refused-cancelled"},
 	{"refused-oversize", "", "refused-oversize"},
+	{"empty-input", "", "tokens"},
+	{"ctx-indented", "     SELECT a FROM t WHERE 'x", "tokens-ctx"},
+	{"ctx-tabs", "\tSELECT\ta,\n\t\tb FROM t", "tokens-ctx"},
+	{"parser-pool-distinct", "", "parser-pool-distinct"},
+	{"depth-150", "SELECT " + strings.Repeat("(", 150) + "1" + strings.Repeat(")", 150), "parse"},
+	{"depth-190-fn", "SELECT " + strings.Repeat("f(", 190) + "1" + strings.Repeat(")", 190), "parse"},
 	{"dialect-limit", "SELECT a FROM t LIMIT 10, 20", "parse"},
 	{"strict-semicolons", ";; SELECT 1", "parse"},
 	{"error-location-plain", "SELECT a FROM t WHERE ]", "parse"},
@@ -182,6 +200,13 @@ var h8Probes = []h8Probe{
 	{"tokens-keywords", "SELECT zerofill, unsigned, ilike, returning FROM straight_join", "tokens"},
 	{"recovery", "SELECT 1; SELECT FROM; SELECT 2", "recovery"},
 	{"recovery-plain-tokens", "SELECT a FROM t WHERE ] ; SELECT 2", "recovery-tokens"},
+}
+
+// h8PlainTokens is a hand-built token stream (SELECT a FROM t WHERE ] ; SELECT 2) for the token-level entry points.
+func h8PlainTokens() []token.Token {
+	id := func(s string) token.Token { return token.Token{Type: models.TokenTypeIdentifier, Literal: s} }
+	return []token.Token{{Type: models.TokenTypeSelect, Literal: "SELECT"}, id("a"), {Type: models.TokenTypeFrom, Literal: "FROM"}, id("t"), {Type: models.TokenTypeWhere, Literal: "WHERE"},
+		{Type: models.TokenTypeRBracket, Literal: "]"}, {Type: models.TokenTypeSemicolon, Literal: ";"}, {Type: models.TokenTypeSelect, Literal: "SELECT"}, {Type: models.TokenTypeNumber, Literal: "2"}, {Type: models.TokenTypeEOF}}
 }
 
 // h8Outcome runs one probe on (tk, p) and digests everything observable.
@@ -206,22 +231,36 @@ func h8Outcome(tk *tokenizer.Tokenizer, p *parser.Parser, pr h8Probe) map[string
 		out["comments"] = dump.Dump(tk.Comments)
 		return out
 	}
-	toks, err := tk.Tokenize([]byte(pr.SQL))
+	if pr.Mode == "parser-pool-distinct" {
+		// two holders at the same time never get the same parser
+		p1, p2 := parser.GetParser(), parser.GetParser()
+		out["tree"] = fmt.Sprint(p1 == p2)
+		if p1 != p2 {
+			parser.PutParser(p2)
+		}
+		parser.PutParser(p1)
+		return out
+	}
+	var toks []models.TokenWithSpan
+	var err error
+	if pr.Mode == "tokens-ctx" {
+		toks, err = tk.TokenizeContext(context.Background(), []byte(pr.SQL))
+	} else {
+		toks, err = tk.Tokenize([]byte(pr.SQL))
+	}
 	if err != nil {
 		out["tokenize-error"] = fmt.Sprintf("%+v", shapeOf(err))
+		out["comments"] = dump.Dump(tk.Comments)
 		return out
 	}
 	out["tokens"] = dump.Dump(toks)
 	out["comments"] = dump.Dump(tk.Comments)
-	if pr.Mode == "tokens" {
+	if pr.Mode == "tokens" || pr.Mode == "tokens-ctx" {
 		return out
 	}
 	if pr.Mode == "recovery-tokens" {
 		// the plain-token recovery entry point: no position table belongs to this stream
-		id := func(s string) token.Token { return token.Token{Type: models.TokenTypeIdentifier, Literal: s} }
-		plain := []token.Token{{Type: models.TokenTypeSelect, Literal: "SELECT"}, id("a"), {Type: models.TokenTypeFrom, Literal: "FROM"}, id("t"), {Type: models.TokenTypeWhere, Literal: "WHERE"},
-			{Type: models.TokenTypeRBracket, Literal: "]"}, {Type: models.TokenTypeSemicolon, Literal: ";"}, {Type: models.TokenTypeSelect, Literal: "SELECT"}, {Type: models.TokenTypeNumber, Literal: "2"}, {Type: models.TokenTypeEOF}}
-		stmts, errs := p.ParseWithRecovery(plain)
+		stmts, errs := p.ParseWithRecovery(h8PlainTokens())
 		out["tree"] = dump.Dump(stmts)
 		var es []string
 		for _, e := range errs {
